@@ -87,7 +87,7 @@ IS_MUTE = 'isa(condition, "MutePreprocessorCondition")'
 IS_UNMUTE = 'isa(condition, "UnmutePreprocessorCondition")'
 IS_OPEN = '(not {} and not {} and not {} and not {})'.format(IS_DEP, IS_END, IS_MUTE, IS_UNMUTE)
 
-contract(CS + '.process_condition', props=['C08'], requires=['cs_wf(self)'],
+contract(CS + '.process_condition', props=['C08', 'C03', 'C16'], requires=['cs_wf(self)'],
          # an #else, #elif or #endif without a matching opener is rejected (IndexError is turned into an exit by the caller);
          # an #else / #elif after an #else is rejected (ValueError)
          raises={'IndexError': f'({IS_DEP} or {IS_END}) and {N} == 0'},
